@@ -123,8 +123,67 @@ def lineal_cover_pair(rng):
     return A, B
 
 
+def vary_rings(rng, g):
+    """representation variants that leave the point set and validity unchanged: ring orientation, ring start, one
+    consecutive repeated vertex (polygon rings and lines); applied to some pairs so that code conditioned on
+    'CW shell', 'first vertex' or 'no repeats' is exercised with the other representation too."""
+    t, d = g
+    if t == 'Polygon' and d:
+        out = []
+        for r in d:
+            r = list(r)
+            if len(r) >= 4:
+                if rng.random() < 0.5:
+                    r = r[::-1]
+                if rng.random() < 0.5:
+                    k = rng.randrange(len(r) - 1); core = r[:-1]; core = core[k:] + core[:k]; r = core + [core[0]]
+                if rng.random() < 0.35:
+                    k = rng.randrange(len(r)); r = r[:k + 1] + [r[k]] + r[k + 1:]
+            out.append(r)
+        return (t, out)
+    if t == 'LineString' and d and rng.random() < 0.2:
+        k = rng.randrange(len(d)); return (t, d[:k + 1] + [d[k]] + d[k + 1:])
+    if t in ('MultiPolygon', 'MultiLineString', 'GeometryCollection'):
+        return (t, [vary_rings(rng, x) for x in d])
+    return g
+
+
+def notch_holes_pair(rng):
+    """A = polygon with a concave (U / L shaped) hole and a small hole sitting in its notch, so that hole ENVELOPES nest or
+    overlap although the holes are disjoint; holes in every order. B = points / lines / small polygons placed in, on and
+    next to each hole. Aimed at loops over holes that stop at the first hole whose envelope matches."""
+    W, H = 60, 60
+    shell = G.rect_ring(0, 0, W, H)
+    if rng.random() < 0.5:      # U-shaped hole opening upwards, notch x in (24,36), y in (20,40)
+        big = [(10, 10), (50, 10), (50, 40), (36, 40), (36, 20), (24, 20), (24, 40), (10, 40), (10, 10)]
+    else:                       # L-shaped hole, notch = upper right quadrant of its envelope
+        big = [(10, 10), (50, 10), (50, 20), (24, 20), (24, 40), (10, 40), (10, 10)]
+    sx, sy = rng.randint(26, 30), rng.randint(24, 32)
+    small = G.rect_ring(sx, sy, sx + 4, sy + 4)
+    holes = [big[::-1], small[::-1]]
+    if rng.random() < 0.4:
+        holes.append(G.rect_ring(3, 50, 6, 53)[::-1])
+    rng.shuffle(holes)
+    A = ('Polygon', [shell] + holes)
+    cands = [('Point', (sx + 2, sy + 2)), ('Point', (sx, sy + 2)), ('Point', (sx, sy)), ('Point', (30, 22)), ('Point', (15, 15)),
+             ('Point', (24, 30)), ('Point', (55, 55)),
+             ('LineString', [(sx + 1, sy + 1), (sx + 3, sy + 3)]), ('LineString', [(sx, sy), (sx + 4, sy)]), ('LineString', [(sx - 1, sy + 2), (sx + 5, sy + 2)]),
+             ('Polygon', [G.rect_ring(sx + 1, sy + 1, sx + 3, sy + 3)]), ('Polygon', [G.rect_ring(sx, sy, sx + 2, sy + 2)]),
+             ('Polygon', [[(sx, sy), (sx + 4, sy + 2), (sx, sy + 4), (sx, sy)]]),           # inside the small hole, first two vertices on its ring
+             ('Polygon', [G.rect_ring(sx - 1, sy - 1, sx + 5, sy + 5)]), ('Polygon', [G.rect_ring(12, 12, 20, 18)])]
+    k = rng.random()
+    if k < 0.55:
+        B = rng.choice(cands)
+    elif k < 0.75:
+        B = ('MultiPoint', rng.sample([c for c in cands if c[0] == 'Point'], 3))
+    else:
+        B = ('GeometryCollection', [rng.choice(cands), ('Point', (55, 5))])
+    return A, B
+
+
 def structured_pair(rng):
-    A, B = nest_pair(rng) if rng.random() < 0.5 else lineal_cover_pair(rng)
+    k = rng.random()
+    A, B = nest_pair(rng) if k < 0.4 else lineal_cover_pair(rng) if k < 0.75 else notch_holes_pair(rng)
     kind = 'structured'
     if rng.random() < 0.4:
         f = G.to_full_precision(rng, A)
@@ -248,6 +307,8 @@ def run(ctx):
                 cases.append(('corpus', a, b, None, None))
     for _ in range(n):
         kind, A, B = gen_pair(rng) if rng.random() < 0.6 else structured_pair(rng)
+        if rng.random() < 0.35:
+            A, B = vary_rings(rng, A), vary_rings(rng, B)
         cases.append((kind, G.to_wkt(A), G.to_wkt(B), G.dim_real(A), G.dim_real(B)))
     nrect = n // 10
     rects = []
